@@ -321,7 +321,15 @@ var c20ArrResults = []any{
 	[]any{[]any{[]any{int8(3)}}, uint16(7), float32(0.5)},
 	[]any{"<b>&"},
 	[]any{make(chan int)}, // unsupported: as data this is an error, so the call must be an error too
+	c20SharedResult(),     // the same map and the same slice mentioned twice: finite, so it converts
 }
+
+func c20SharedResult() []any {
+	m := map[string]any{"k": true}
+	s := []any{1, 2}
+	return []any{m, m, s, s, map[string]any{"a": m, "b": m}}
+}
+
 
 // looseEqual is reflect.DeepEqual except that a nil slice/map equals an empty one.
 func looseEqual(a, b any) bool {
@@ -428,6 +436,10 @@ func c20Convert(cs c20Case) (ok bool, sig, expected, observed string) {
 		if !looseEqual(gotArgs[i], wantArgs[i]) {
 			return false, "wrong-argument/" + c20ArgVals[cs.Args[i]].lit, expected, fmt.Sprintf("argument %d is %#v", i, gotArgs[i])
 		}
+	}
+	if asData.Kind == KErr && cs.Type == 1 && cs.Result%len(c20ArrResults) != 5 {
+		// every array result but the one holding a channel is made of supported values only
+		return false, "supported-result-rejected-as-data", expected, asData.String()
 	}
 	if asData.Kind == KErr {
 		if o.Kind != KErr {
